@@ -26,6 +26,10 @@ static const char *DESC = "TERM NUM = 300;\nE : E '+' T # plus (0 2) | T # 0 ;\n
 static int k1, r1; static const char *rhs_ab[] = {"a", "S", NULL}, *rhs_e[] = {NULL}; static int tr0[] = {-1};
 static const char *rt (int *code) { if (k1++) return NULL; *code = 'a'; return "a"; }
 static const char *rr (const char ***rhs, const char **an, int *cost, int **tr) { *an = NULL; *cost = 0; *tr = tr0; if (r1 == 0) { r1++; *rhs = rhs_ab; return "S"; } if (r1 == 1) { r1++; *rhs = rhs_e; return "S"; } return NULL; }
+#define NLONG 61
+#define NAMB 6
+static int longs[NLONG], longbad[NLONG], amb_in[NAMB], longs_ready;
+static const char *AMBDESC = "S : S S # n1 1 (0 1) | S S # n2 2 (0 1) | 'a' # l 1 (0) | 'a' # m 2 (0) ;\n";
 static int other_ok (struct grammar *o)
 { static const int t[] = {300, '+', 300}; struct yaep_tree_node *root; int amb, rc; toks = t; ntok = 3; pos = 0; rc = yaep_parse (o, rd, er, NULL, NULL, &root, &amb); if (rc == 0 && root != NULL) yaep_free_tree (root, NULL, NULL); return rc == 0 && root != NULL && yaep_error_code (o) == 0; }
 /* one experiment in the child: returns 0 ok, 1 wrong outcome, 2 call succeeded (k beyond the last request) */
@@ -35,8 +39,11 @@ static int experiment (int which, long k)
   static const int sent[] = {300, '+', '(', 300, ')'}, nons[] = {300, '+', '+', 300, ')', 300};
   if (other == NULL || yaep_parse_grammar (other, 1, DESC) != 0) return 1;
   if (which != 0) { g = yaep_create_grammar (); if (g == NULL) return 1; }
-  if (which >= 3 && yaep_parse_grammar (g, 1, DESC) != 0) return 1;
-  if (which >= 3) { yaep_set_lookahead_level (g, which == 5 ? 2 : 1); yaep_set_one_parse_flag (g, which == 4 ? 0 : 1); }
+  if (!longs_ready) { int i; for (i = 0; i < NLONG; i++) { longs[i] = (i % 2) ? '+' : 300; longbad[i] = (i % 7 == 3) ? ')' : longs[i]; } for (i = 0; i < NAMB; i++) amb_in[i] = 'a'; longs_ready = 1; }
+  if (which >= 3 && yaep_parse_grammar (g, which == 8 ? 0 : 1, which == 8 ? AMBDESC : DESC) != 0) return 1;
+  if (which == 8) { yaep_set_one_parse_flag (g, 0); yaep_set_cost_flag (g, 1); }
+  if (which == 7) yaep_set_one_parse_flag (g, 0);
+  if (which >= 3 && which <= 6) { yaep_set_lookahead_level (g, which == 5 ? 2 : 1); yaep_set_one_parse_flag (g, which == 4 ? 0 : 1); }
   count = 0; fail_at = k;
   switch (which)
     {
@@ -44,6 +51,9 @@ static int experiment (int which, long k)
     case 1: rc = yaep_parse_grammar (g, 1, DESC); break;
     case 2: k1 = r1 = 0; rc = yaep_read_grammar (g, 1, rt, rr); break;
     case 3: case 5: toks = sent; ntok = 5; pos = 0; rc = yaep_parse (g, rd, er, NULL, NULL, &root, &amb); break;
+    case 6: toks = longs; ntok = NLONG; pos = 0; rc = yaep_parse (g, rd, er, NULL, NULL, &root, &amb); break;                /* growth of the token array, the parser list, the tables */
+    case 7: toks = longbad; ntok = NLONG; pos = 0; rc = yaep_parse (g, rd, er, NULL, NULL, &root, &amb); break;              /* error recovery over a long input */
+    case 8: toks = amb_in; ntok = NAMB; pos = 0; rc = yaep_parse (g, rd, er, NULL, NULL, &root, &amb); break;                /* ambiguous grammar, all parses, cost flag: DAG building and pruning */
     case 4: toks = nons; ntok = 6; pos = 0; rc = yaep_parse (g, rd, er, NULL, NULL, &root, &amb); break;
     }
   fail_at = -1;
@@ -52,7 +62,7 @@ static int experiment (int which, long k)
       if (count < k) { if (root) yaep_free_tree (root, NULL, NULL); yaep_free_grammar (g); yaep_free_grammar (other); return 2; }
       ok = rc == YAEP_NO_MEMORY && yaep_error_code (g) == YAEP_NO_MEMORY && root == NULL;
       /* the object is still usable: it can be defined and parsed again, and freed */
-      if (ok && which >= 3) { toks = sent; ntok = 5; pos = 0; ok = yaep_parse (g, rd, er, NULL, NULL, &root, &amb) == 0 && root != NULL; if (root) yaep_free_tree (root, NULL, NULL); }
+      if (ok && which >= 3) { if (which == 8) { toks = amb_in; ntok = 3; } else { toks = sent; ntok = 5; } pos = 0; ok = yaep_parse (g, rd, er, NULL, NULL, &root, &amb) == 0 && root != NULL; if (root) yaep_free_tree (root, NULL, NULL); }
       yaep_free_grammar (g);
     }
   ok = ok && other_ok (other);
@@ -61,9 +71,9 @@ static int experiment (int which, long k)
 }
 int main (void)
 {
-  static const char *name[] = {"yaep_create_grammar", "yaep_parse_grammar", "yaep_read_grammar", "yaep_parse(sentence)", "yaep_parse(non-sentence,all-parses)", "yaep_parse(sentence,lookahead2)"};
+  static const char *name[] = {"yaep_create_grammar", "yaep_parse_grammar", "yaep_read_grammar", "yaep_parse(sentence)", "yaep_parse(non-sentence,all-parses)", "yaep_parse(sentence,lookahead2)", "yaep_parse(61_tokens)", "yaep_parse(61_tokens_with_errors,all-parses)", "yaep_parse(ambiguous,all-parses,cost)"};
   int which; int anybad = 0;
-  for (which = 0; which < 6; which++)
+  for (which = 0; which < 9; which++)
     {
       long k, n = 0, badn = 0, first_bad = 0, crashes = 0;
       for (k = 1; k < 5000; k++)
